@@ -179,6 +179,14 @@ impl SizeHeader {
             return Err(SizeError::InvalidEsizeWidth(h.esize_bytes));
         }
 
+        // The V2 header stores the total in 5 bytes: a larger total would be
+        // written without its upper bits
+        if let Self::V2(h) = self
+            && h.total_size > 0xFF_FFFF_FFFF
+        {
+            return Err(SizeError::TotalSizeTooLarge(h.total_size));
+        }
+
         Ok(())
     }
 }
